@@ -105,8 +105,11 @@ func (a *w5s3) UploadPart(ctx context.Context, in *s3.UploadPartInput, _ ...func
 	defer func() { a.partsInFlight-- }()
 	var atCall []byte
 	if sk, ok := in.Body.(io.ReadSeeker); ok {
+		// (like the SDK, which hashes a seekable body and seeks back to where it FOUND it: a reader handed over
+		// already consumed is sent as an empty body, it is not rewound to its beginning)
+		pos, _ := sk.Seek(0, io.SeekCurrent)
 		atCall, _ = io.ReadAll(sk)
-		_, _ = sk.Seek(0, io.SeekStart)
+		_, _ = sk.Seek(pos, io.SeekStart)
 	}
 	// the body is consumed while the request is on the wire, i.e. when the simulated transfer completes,
 	// not when the call is made: a caller that reuses its buffer too early sends something else
